@@ -342,6 +342,7 @@ def main():
                 doc[name] = shape(fn)
     doc['#closures'] = closures_doc(eng.prog.funcs)
     doc['#allfuncs'] = sorted(eng.prog.funcs)
+    doc['#params'] = {n: [p_['name'] for p_ in f['params']] for n, f in eng.prog.funcs.items() if n.startswith(('github.com/itchio/wharf', '(*github.com/itchio/wharf', '(github.com/itchio/wharf'))}
     doc['#fingerprints'] = {name: closure_fp(eng.prog.funcs[name]) for name in doc if not name.startswith('#') and name in eng.prog.funcs}
     json.dump(doc, open(PATH, 'w'), indent=0, sort_keys=True)
     print('%s: %d functions' % (PATH, len(doc)))
